@@ -374,3 +374,37 @@ func VerifC06Preserved() {
 		sym.Assert(sym.EqBytes(before[m.name], after[rename(m.name)]), "identity-preserved")
 	}
 }
+
+// VerifC06ValueNotARef: a params value or source type that happens to equal the
+// name of an unrelated module is a value, not a dependency: adding that module
+// must not change any identifier, and removing it must not either.
+func VerifC06ValueNotARef() {
+	which := sym.Choice("which", 2)
+	val := "other" // the text of the params value / source type
+	params, source := "p", "sf.test.Block"
+	if which == 0 {
+		params = val
+	} else {
+		source = val
+	}
+	bins := []c06Bin{{"wasm/rust-v1", []byte{1}}}
+	base := []c06Mod{
+		{name: "A", kind: c06Store, init: sym.U64("init"), entry: "e", bin: 0, inputs: []c06In{c06Src(source)}},
+		{name: "B", kind: c06Map, init: sym.U64("init"), entry: "e", bin: 0, inputs: []c06In{c06Par(params), c06StoreIn("A")}},
+	}
+	before, ok := c06HashAll(c06Build(base, bins))
+	if !ok {
+		sym.Unreachable("hashing-ok")
+		return
+	}
+	// an unrelated module whose name equals that text
+	extra := c06Mod{name: val, kind: c06Map, init: sym.U64("extra-init"), entry: "x", bin: 0, inputs: []c06In{c06Src("sf.test.Block")}}
+	after, ok := c06HashAll(c06Build(append(c06Clone(base), extra), bins))
+	sym.Assert(ok, "value-equal-to-a-module-name-still-hashes")
+	if !ok {
+		return
+	}
+	sym.Reach("compared")
+	sym.Assert(sym.EqBytes(before["A"], after["A"]), "unrelated-module-named-like-a-value-leaves-identity-unchanged")
+	sym.Assert(sym.EqBytes(before["B"], after["B"]), "unrelated-module-named-like-a-value-leaves-identity-unchanged")
+}
